@@ -124,7 +124,7 @@ def size_terms(F, R, sf):
                  'var_int_len_from_size is called with a value that can be 0 (it underflows): %s' % (ib[0]['got'][:300] if ib else ''), eb.loc(0))
     R.counts['C09.size-terms:worlds'] = worlds_total
     R.counts['C09.limit-arith:subtractions evaluated'] = nsubs
-    R.floor('C09.size-terms', 'worlds compared', worlds_total, 150)
+    R.floor('C09.size-terms', 'worlds compared', worlds_total, 30)
     R.table('size_emit_pairs', table)
     for fn, v in sorted(set(sf.sentinels)):
         R.note('%s has an over-size sentinel return (%d): such a value can never pass the codec limit comparison' % (fn, v))
